@@ -49,7 +49,7 @@ inductive DVal where
   | none
   | some (d : DVal)
   | list (ds : List DVal)
-  | rec (fs : List (String × DVal))
+  | record (fs : List (String × DVal))
   | variant (rust : String)
   deriving Repr, Inhabited
 
@@ -86,13 +86,20 @@ def defaultOf : Ty → Option DVal
   | .enum _ _ => none
   | .struct _ _ _ => none
 
-def Ty.isOption : Ty → Bool
+def tyIsOption : Ty → Bool
   | .option _ => true
   | _ => false
 
 /-- What a field gets when its member is absent from the object. -/
 def missingOf (dflt : Bool) (ty : Ty) : Option DVal :=
-  if dflt then defaultOf ty else if ty.isOption then some .none else none
+  if dflt then defaultOf ty else if tyIsOption ty then some .none else none
+
+/-- What a struct field gets from the members of its name: absent → `a`; one → its reading; more
+than one → error (`duplicate field`). -/
+def pick {β : Type} (a : Option β) (f : JVal → Option β) : List JVal → Option β
+  | [] => a
+  | [x] => f x
+  | _ => none
 
 mutual
 /-- `<T as Deserialize>::deserialize` on a JSON value; `none` = error. -/
@@ -103,7 +110,7 @@ def decode : Ty → JVal → Option DVal
     | _ => none
   | .string, v =>
     match v with
-    | .str s => some (.str s)
+    | .str s => some (DVal.str s)
     | _ => none
   | .option t, v =>
     match v with
@@ -116,20 +123,15 @@ def decode : Ty → JVal → Option DVal
   | .enum _ vs, v => decodeEnum vs v
   | .struct _ deny fs, v =>
     match v with
-    | .obj ms => (decodeFields deny fs ms).map DVal.rec
-    | .arr xs => (decodeSeq fs xs).map DVal.rec
+    | .obj ms => (decodeFields deny fs ms).map DVal.record
+    | .arr xs => (decodeSeq fs xs).map DVal.record
     | _ => none
 /-- A struct from an object: field by field, each taking the members of its name out of the
 list; what is left at the end are the members no field names. -/
 def decodeFields (deny : Bool) : Fields → List (String × JVal) → Option (List (String × DVal))
   | .nil, ms => if deny && !ms.isEmpty then none else some []
   | .cons rust json dflt ty rest, ms =>
-    let here : Option DVal :=
-      match valuesOf json ms with
-      | [] => missingOf dflt ty
-      | [x] => decode ty x
-      | _ => none
-    match here, decodeFields deny rest (others json ms) with
+    match pick (missingOf dflt ty) (decode ty) (valuesOf json ms), decodeFields deny rest (others json ms) with
     | some d, some ds => some ((rust, d) :: ds)
     | _, _ => none
 /-- A struct from an array: the fields in order. -/
@@ -153,7 +155,7 @@ end
 
 def DVal.field (d : DVal) (name : String) : Option DVal :=
   match d with
-  | .rec fs => (fs.find? fun p => p.1 == name).map (·.2)
+  | .record fs => (fs.find? fun p => p.1 == name).map (·.2)
   | _ => Option.none
 
 /-- `record.a.b.c` -/
@@ -214,21 +216,22 @@ def parseLine (v : JVal) : Option Grep.Rec :=
 
 /-! ## The vocabulary of the theorems -/
 
-/-- No struct inside the type denies unknown members. -/
 mutual
-def Ty.lenient : Ty → Bool
-  | .option t => t.lenient
-  | .vec t => t.lenient
-  | .struct _ deny fs => !deny && fs.lenient
+/-- No struct inside the type denies unknown members. -/
+def tyLenient : Ty → Bool
+  | .option t => tyLenient t
+  | .vec t => tyLenient t
+  | .struct _ deny fs => !deny && fieldsLenient fs
   | _ => true
-def Fields.lenient : Fields → Bool
+def fieldsLenient : Fields → Bool
   | .nil => true
-  | .cons _ _ _ ty rest => ty.lenient && rest.lenient
+  | .cons _ _ _ ty rest => tyLenient ty && fieldsLenient rest
 end
 
-def Fields.hasJson : Fields → String → Bool
+/-- Some field of the struct has the JSON name `k`. -/
+def hasJson : Fields → String → Bool
   | .nil, _ => false
-  | .cons _ json _ _ rest, k => json == k || rest.hasJson k
+  | .cons _ json _ _ rest, k => json == k || hasJson rest k
 
 def Pointwise {α : Type} (R : α → α → Prop) : List α → List α → Prop
   | [], [] => True
@@ -269,7 +272,8 @@ end
 
 /-! ## A record as the emission logic sees it -/
 
-def bytesOfChars (cs : List Char) : Grep.Bytes := (String.ofList cs).toUTF8.toList
+/-- UTF-8 bytes of a text (by a definition the kernel can evaluate). -/
+def bytesOfChars (cs : List Char) : Grep.Bytes := cs.flatMap String.utf8EncodeChar
 
 /-- The input line of the stream for the JSON value `v` whose text was `raw`: a hit when
 `parse_line` answers, otherwise the line goes through unchanged. -/
